@@ -155,7 +155,7 @@ type evidence struct {
 
 // finish writes evidence and replay files, prints the verdict lines and returns
 // the process exit status.
-func (r *Report) finish(verifDir string, p *propertySpec, tier string, seed int, start time.Time, configs []string, kf *knownFindings, cmdline string) int {
+func (r *Report) finish(evDir string, p *propertySpec, tier string, seed int, start time.Time, configs []string, kf *knownFindings, cmdline string) int {
 	sort.SliceStable(r.obls, func(i, j int) bool { return r.obls[i].Key < r.obls[j].Key })
 
 	// floors become obligations of their own so that they show up in counts
@@ -176,7 +176,7 @@ func (r *Report) finish(verifDir string, p *propertySpec, tier string, seed int,
 		}
 	}
 
-	replayDir := filepath.Join(verifDir, "evidence", "replay")
+	replayDir := filepath.Join(evDir, "replay")
 	os.MkdirAll(replayDir, 0o755)
 	// remove stale replay files of this property
 	if old, _ := filepath.Glob(filepath.Join(replayDir, p.ID+"-*.json")); old != nil {
@@ -289,8 +289,8 @@ func (r *Report) finish(verifDir string, p *propertySpec, tier string, seed int,
 		Violations:  nViol + nUnd,
 	}
 	eb, _ := json.MarshalIndent(ev, "", " ")
-	os.MkdirAll(filepath.Join(verifDir, "evidence"), 0o755)
-	if err := os.WriteFile(filepath.Join(verifDir, "evidence", p.ID+".json"), eb, 0o644); err != nil {
+	os.MkdirAll(evDir, 0o755)
+	if err := os.WriteFile(filepath.Join(evDir, p.ID+".json"), eb, 0o644); err != nil {
 		fmt.Fprintln(os.Stderr, "cannot write evidence:", err)
 		return 2
 	}
